@@ -16,7 +16,8 @@ COQ_CASE_TYPE = "case"
 COQ_RUN = "run_case"
 TABLE_CONSTRUCTS = ["sig_tables", "dg_shadowing", "sig_observe_code", "sig_unobserve_code", "sig_clear_code",
                     "sig_mesa_notify_code", "sl_setitem_code", "sl_delitem_code", "sl_insert_code", "sl_append_code",
-                    "signals_glue"]
+                    "signals_glue", "ms_pop_code", "ms_pop_default", "ms_remove_code", "ms_extend_code", "ms_iadd_code",
+                    "ms_reverse_code", "ms_clear_code", "ms_glue"]
 SIG = "mesa/experimental/mesa_signals/"
 SOURCE_FUNCS = [(SIG + "mesa_signal.py", "BaseObservable.__set__"), (SIG + "mesa_signal.py", "Observable.__set__"),
                 (SIG + "mesa_signal.py", "HasObservables"), (SIG + "mesa_signal.py", "descriptor_generator"),
